@@ -648,9 +648,14 @@ func runGenerator(sc *Scenario) (res Result) {
 	// cancel: both channels must close and every goroutine must exit.  The values are not received any more; the errors
 	// keep being read during the horizon (a stage whose only cancel check sits behind a successful error hand-over would
 	// go on for ever), then nobody reads anything
-	finish()
+	// (try-and-continue stages whose consumer did not walk away; for the others the error reader stops first, so that a
+	// stage parked on an error nobody takes must be freed by the cancel alone)
+	keepErrReader := sc.Mode == "try" && !sc.T.StopAtCancel
+	if keepErrReader {
+		finish()
+	}
 	mu.Lock()
-	stillOpen := !errClosed
+	stillOpen := keepErrReader && !errClosed
 	mu.Unlock()
 	if stillOpen {
 		close(e.envStop)
